@@ -152,6 +152,16 @@ def callerWritten (es : List Effect) : Str :=
 def withoutCallerWrites (es : List Effect) : List Effect :=
   es.filter fun e => match e with | .callerWrite _ => false | _ => true
 
+/-- a search loop with `break`: `for i, x := range xs { if p x { idx = i; break } }` — the index of
+    the first element satisfying `p`, the old value of `idx` when there is none -/
+def firstIndexFrom {α} (p : α → Bool) (dflt : Int) : Int → List α → Int
+  | _, [] => dflt
+  | i, x :: xs => if p x then i else firstIndexFrom p dflt (i + 1) xs
+def firstIndexOr {α} (xs : List α) (p : α → Bool) (dflt : Int) : Int := firstIndexFrom p dflt 0 xs
+/-- `xs[i]` as an interface value (`none` = nil; the real code panics out of range — the theorem
+    about `Statement.previous` shows the index is in range whenever it is used) -/
+def itemAt {α} (xs : List α) (i : Int) : Option α := if i < 0 then none else xs[i.toNat]?
+
 /-- `sort.Slice(keys, by key text, then by value text)` of Dict.render (any correct sort gives the
     same list up to pairs with equal key AND value text; the model sorts the same way) -/
 def kvLe (a b : Str × Str × Code × Code) : Bool := dictLe (a.1, a.2.1) (b.1, b.2.1)
